@@ -109,6 +109,7 @@ func (n *crossMemNet) Serve(rawURL string, h http.Handler) (func(), error) {
 // ---------------------------------------------------------------- recording doubles
 
 type transmitT = transmit.Transmission
+type httpHandler = http.Handler
 
 type crossHop struct {
 	From, To string
@@ -203,6 +204,7 @@ type crossNodeOpts struct {
 	Collector  collect.Collector
 	Upstream   transmit.Transmission
 	WrapPeerTx func(inner transmit.Transmission) transmit.Transmission // optional recorder
+	WrapPeerH  func(h http.Handler) http.Handler                       // optional recorder around the peer router's handler
 	BatchDelay time.Duration
 }
 
@@ -269,6 +271,9 @@ func crossStartNode(o crossNodeOpts) (*crossNode, error) {
 		n.Stop()
 		return nil, fmt.Errorf("router handler not built")
 	}
+	if o.WrapPeerH != nil {
+		ph = o.WrapPeerH(ph)
+	}
 	stop, err := o.Net.Serve(o.Addr, ph)
 	if err != nil {
 		n.Stop()
@@ -294,13 +299,17 @@ type crossBatchEvent struct {
 // PostBatch sends a JSON batch to the node's INCOMING router handler (as a client would) and
 // returns status code and body.
 func (n *crossNode) PostBatch(dataset, apiKey string, evs []crossBatchEvent) (int, string) {
+	return crossPostBatch(n.inH, dataset, apiKey, evs)
+}
+
+func crossPostBatch(h http.Handler, dataset, apiKey string, evs []crossBatchEvent) (int, string) {
 	body, _ := json.Marshal(evs)
 	req := httptest.NewRequest("POST", "/1/batch/"+url.PathEscape(dataset), bytes.NewReader(body))
 	req.Header.Set("Content-Type", "application/json")
 	req.Header.Set("X-Honeycomb-Team", apiKey)
 	req.Header.Set("User-Agent", "verif-client")
 	w := httptest.NewRecorder()
-	n.inH.ServeHTTP(w, req)
+	h.ServeHTTP(w, req)
 	return w.Code, w.Body.String()
 }
 
